@@ -518,7 +518,7 @@ Proof.
              cbn [step]; revert H1;
              match goal with |- _ -> exists _ _, ?X = _ => destruct X as [sc1 st1] end;
              cbn [fst]; intros H1; subst sc1; eexists; eexists; reflexivity).
-      cbn [step]. destruct (eval_in_scope (fr :: sc) p) as [path es].
+      unfold step. cbv beta iota zeta. destruct (eval_in_scope (fr :: sc) p) as [path es].
       destruct (Nat.leb max_include_depth depth); eexists; eexists; reflexivity. }
     destruct Hs as [fr1 [st1 Hs]]. rewrite Hs. apply IHd.
   - rewrite run_decls_nil. eexists; reflexivity.
@@ -529,7 +529,7 @@ Proof.
              cbn [step]; revert H1;
              match goal with |- _ -> exists _ _, ?X = _ => destruct X as [sc1 st1] end;
              cbn [fst]; intros H1; subst sc1; eexists; eexists; reflexivity).
-      cbn [step]. destruct (eval_in_scope (fr :: sc) p) as [path es].
+      unfold step. cbv beta iota zeta. destruct (eval_in_scope (fr :: sc) p) as [path es].
       destruct (Nat.leb max_include_depth depth); [eexists; eexists; reflexivity|].
       destruct (find_file fs (make_absolute wd path)) as [ds'|]; [|eexists; eexists; reflexivity].
       destruct i; [|eexists; eexists; reflexivity].
